@@ -59,10 +59,11 @@ impl Monitor for C03 {
             ("crash_points_after_unlink", tier.pick(1_000, 20_000)),
             ("crash_points_with_unflushed_calls", tier.pick(5_000, 100_000)),
             ("recovered_older_than_last_call_but_at_or_after_frontier", tier.pick(2_000, 40_000)),
+            ("fsync_faults_reported_by_the_call_they_hit", tier.pick(300, 6_000)),
         ]
     }
     fn rule(&self) -> String {
-        "case = one generated history (8..40 calls with explicit persist calls) under one of DoNothing / OnDelay(1h,Flush) / OnDelay(1h,FlushAndFsync) / Always(Flush) / Always(FlushAndFsync); evaluation = one recovery of an image rebuilt at a crash point (after every file-system effect, plus sampled torn writes) under the process-crash model or one of the power-loss variants (never-synced file absent / zero-length / zero-filled; none or a prefix of the unsynced writes surviving); oracle: recovered state == state observed live after j calls for some j between the persist frontier (computed from the API contract only) and the in-flight call, up to a partially applied truncate/delete; distinct_nontrivial = distinct (case, effect index, loss model variant) whose frontier is at least one call behind the crash".into()
+        "case = one generated history (8..40 calls with explicit persist calls) under one of DoNothing / OnDelay(1h,Flush) / OnDelay(1h,FlushAndFsync) / Always(Flush) / Always(FlushAndFsync); evaluation = one recovery of an image rebuilt at a crash point (after every file-system effect, plus sampled torn writes) under the process-crash model or one of the power-loss variants (never-synced file absent / zero-length / zero-filled; none or a prefix of the unsynced writes surviving); oracle: recovered state == state observed live after j calls for some j between the persist frontier (computed from the API contract only) and the in-flight call, up to a partially applied truncate/delete; plus, on one case in three, a replay of the same calls in which one fsync/fdatasync fails once with EIO: the call it hits must return an I/O error; distinct_nontrivial = distinct (case, effect index, loss model variant) whose frontier is at least one call behind the crash".into()
     }
     fn assumptions(&self) -> Vec<String> {
         vec![
@@ -97,6 +98,62 @@ impl Monitor for C03 {
             }
         };
         crate::util::clear_dir(&live_dir);
+        // ---- fsync-fault leg (one case in three) -----------------------------------------------
+        // "Persisted" presupposes that the sync succeeded: replay the same calls with ONE
+        // fsync / fdatasync of the run failing (EIO, once). The call during which the failure
+        // is delivered promised durability it did not get, so it must report an I/O error.
+        if case % 3 == 0 {
+            let total_syncs = run.events.iter().filter(|e| matches!(e, Ev::Fsync { .. })).count() as i64;
+            if total_syncs > 0 {
+                let nth = 1 + rng.below(total_syncs as u64) as i64;
+                let fdir = ctx.scratch.sub("c03-fsync-fault");
+                crate::util::clear_dir(&fdir);
+                crate::shim::reset_all();
+                crate::shim::set_root(&fdir);
+                crate::shim::fault(crate::shim::CL_FSYNC, nth, libc::EIO, false);
+                let opened = crate::ops::Sut::open(&fdir, policy, key, true);
+                let mut delivered = crate::shim::delivered();
+                acc.eval();
+                acc.count("fsync_fault_replays");
+                match opened {
+                    Err(_) => {
+                        acc.count("fsync_faults_reported_by_the_call_they_hit");
+                    }
+                    Ok(mut sut) => {
+                        if delivered > 0 {
+                            acc.violation("C03/fsync-failure-swallowed/open", case, json!({"history": run.history_json(0), "failing_sync_number": nth, "policy": policy.name()}));
+                            crate::shim::reset_all();
+                            return;
+                        }
+                        for (k, op) in run.ops.iter().enumerate() {
+                            let out = sut.apply(k, op);
+                            let now = crate::shim::delivered();
+                            if now > delivered {
+                                delivered = now;
+                                if out.is_io_err() {
+                                    acc.count("fsync_faults_reported_by_the_call_they_hit");
+                                } else {
+                                    acc.violation(
+                                        format!("C03/fsync-failure-swallowed/{}", op.kind()),
+                                        case,
+                                        json!({"history": run.history_json(k + 1), "call": op.to_json(), "outcome": out.to_json(), "failing_sync_number": nth, "policy": policy.name(), "violated": "a sync of this call failed with EIO, yet the call returned success"}),
+                                    );
+                                    drop(sut);
+                                    crate::shim::reset_all();
+                                    return;
+                                }
+                                break;
+                            }
+                            if out.is_io_err() {
+                                break;
+                            }
+                        }
+                        drop(sut);
+                    }
+                }
+                crate::shim::reset_all();
+            }
+        }
         acc.count(&format!("histories_policy_{}", policy.name()));
         acc.count(&format!("histories_profile_{}", profile.name()));
 
